@@ -252,6 +252,17 @@ func (s *Session) finish(ctx context.Context, en *engine.DefaultEngine, pe *pers
 			protect("snapshot", step, func() {
 				st := pe.GetState()
 				ca, _ := pe.GetMemory().(*cache.Cache)
+				if st == nil || ca == nil {
+					// the engine never took the session up (the request was refused before
+					// anything was set up): the session is what the store holds
+					if store, err := s.Storage.Open(ctx); err == nil {
+						p2 := persist.NewPersister(store).WithContent(state.NewState(s.Cfg.FlagCount), cache.NewCache())
+						if p2.Load(s.Cfg.SessionId) == nil {
+							st = p2.GetState()
+							ca, _ = p2.GetMemory().(*cache.Cache)
+						}
+					}
+				}
 				step.After = TakeSnapshot(st, ca)
 				s.St, s.Ca = st, ca
 			})
